@@ -260,7 +260,7 @@ class C14(Base):
 
     def pred_seq(self, body, impl_obs):
         ops = body.split(";")
-        obs = impl_obs.split(";")
+        obs = impl_obs.split(";") if impl_obs else []
         if len(ops) != len(obs):
             return "observation count %d != op count %d" % (len(obs), len(ops))
         handles = []       # class or None
@@ -448,7 +448,7 @@ class C14(Base):
                 for (ty, arg, x, via) in p:
                     seen.setdefault((ty, arg), set()).add(ti)
             return any(len(v) >= 2 for v in seen.values())
-        obs = impl_obs.split(";")
+        obs = impl_obs.split(";") if impl_obs else []
         hits = sum(1 for o in obs if o.startswith(">"))
         cons = sum(1 for o in obs if ">" in o and not o.startswith(">"))
         return hits >= 1 and cons >= 2
